@@ -5,3 +5,12 @@ import Sidetree.Protocol
 import Sidetree.Expected
 import Sidetree.Window
 import Sidetree.Props.C09
+import Sidetree.Num
+import Sidetree.Jcs
+import Sidetree.Bytes
+import Sidetree.Sha2
+import Sidetree.Hashing
+import Sidetree.Jwk
+import Sidetree.Props.C04
+import Sidetree.Props.C05
+import Sidetree.Props.C06
